@@ -548,6 +548,11 @@ fn g_insert(v: &Value, keys: &mut Keys) -> InsertEntity {
     }
 }
 
+/// start of the UTC day containing `t` (floor), computed here and not through date_utils::date(): the replay's oracle must not depend on the code under test
+fn independent_day(t: i64) -> i64 {
+    t.saturating_sub(t.rem_euclid(86_400_000))
+}
+
 fn replay_daily_marks(sc: &Value) -> Value {
     use crate::database::daily_log::DailyMutations;
     use crate::database::query_language::mutation_parser::MutationParser;
@@ -623,7 +628,7 @@ fn replay_daily_marks(sc: &Value) -> Value {
     for r in sc["required"].as_array().unwrap() {
         let room = uid(r["room"].as_str().unwrap());
         let ent = r["entity"].as_str().unwrap();
-        let day = crate::date_utils::date(i(&r["date"]));
+        let day = independent_day(i(&r["date"]));
         if !marks.iter().any(|(mr, me, md)| *mr == room && me == ent && *md == day) {
             missing.push(r["label"].clone());
         }
@@ -632,7 +637,7 @@ fn replay_daily_marks(sc: &Value) -> Value {
         Some(cu) if !cu.is_null() => {
             let room = uid(cu["room"].as_str().unwrap());
             let ent = cu["entity"].as_str().unwrap();
-            let day = crate::date_utils::date(i(&cu["date"]));
+            let day = independent_day(i(&cu["date"]));
             !marks.iter().any(|(mr, me, md)| *mr == room && me == ent && *md == day)
         }
         _ => false,
@@ -1933,17 +1938,41 @@ fn replay_room_node_merge(sc: &Value) -> Value {
             _ => { cand.auth_nodes[0].right_nodes[0].node.verifying_key = ra_; cand.auth_nodes[0].right_edges[0].verifying_key = ea_; }
         }
     }
+    match sc["shape"]["source"].as_str().unwrap_or("") {
+        "omission" => match place {
+            "admin" => { cand.admin_nodes.pop(); cand.admin_edges.pop(); }
+            "user" => { cand.auth_nodes[0].user_nodes.pop(); cand.auth_nodes[0].user_edges.pop(); }
+            "user_admin" => { cand.auth_nodes[0].user_admin_nodes.pop(); cand.auth_nodes[0].user_admin_edges.pop(); }
+            _ => { cand.auth_nodes[0].right_nodes.pop(); cand.auth_nodes[0].right_edges.pop(); }
+        },
+        "altered" => cand.admin_nodes[0].node._json = Some("{\"altered\":true}".to_string()),
+        _ => {}
+    }
+    // canonical rendering of a room (maps sorted): with nothing legitimately added, the merged room must equal the stored one
+    fn canon(room: &Room) -> String {
+        let mut out: Vec<String> = vec![];
+        for (k, v) in &room.admins { out.push(format!("admin {:?} {:?}", k, v)); }
+        for (gid, a) in &room.authorisations {
+            for (k, v) in &a.users { out.push(format!("{:?} user {:?} {:?}", gid, k, v)); }
+            for (k, v) in &a.user_admins { out.push(format!("{:?} user_admin {:?} {:?}", gid, k, v)); }
+            for (k, v) in &a.rights { out.push(format!("{:?} right {:?} {:?}", gid, k, v)); }
+        }
+        out.sort();
+        out.join("\n")
+    }
+    let stored = old.parse().ok().map(|r| canon(&r));
     let res = ra.prepare_room_node(if first_seen { None } else { Some(old) }, &mut cand);
     match res {
         Ok(changed) => {
             let parsed = cand.parse();
+            let preserved = match (&parsed, &stored) { (Ok(room), Some(st)) => canon(room) == *st, _ => false };
             let mut admins_now: Vec<String> = vec![];
             if let Ok(room) = &parsed {
                 for k in ["K1kkkkkkkkkkkkkkkkkkkkkkkkkkkkkkk", "K2kkkkkkkkkkkkkkkkkkkkkkkkkkkkkkk", "K3kkkkkkkkkkkkkkkkkkkkkkkkkkkkkkk"] {
                     if room.is_admin(&keys.vk(k), i64::MAX) { admins_now.push(k[..2].to_string()); }
                 }
             }
-            json!({"status": "done", "result": "Ok", "changed": changed, "parses": parsed.is_ok(), "admins_at_end_of_time": admins_now})
+            json!({"status": "done", "result": "Ok", "changed": changed, "parses": parsed.is_ok(), "admins_at_end_of_time": admins_now, "entries_preserved": preserved})
         }
         Err(e) => json!({"status": "done", "result": "Err", "error": format!("{}", e)}),
     }
